@@ -37,6 +37,11 @@ structure Run where
       operation (the placement of the whole application is decided then) -/
   snap : Option W := none
   beginOp : Nat := 0
+  /-- non-distributed application: an instance has been lost since the placement was decided: the planned commands that targeted it
+      have been placed again at that time (`ApplicationStartJobs.on_instances_invalidation`), from loads and requests the monitor does
+      not reconstruct: the placement INSIDE the node is no longer judged for this run (the target itself is still compared with the
+      model's at every request by the lock-step) -/
+  lostSince : Bool := false
   /-- C03, STOP strategy: a required process with starting_failure_strategy STOP failed in this run; the processes of the
       application that were running at that time or were requested by this run, have not reported a stopped state and have not
       been asked to stop since: "STOP then stops it once in-flight starts end" -/
@@ -260,7 +265,7 @@ def onReq (w : W) (opReqs : List Req) (j : Judge) : Req → Judge × List String
       -- application leave it (`ApplicationStartJobs.on_instances_invalidation`)
       (if w.instRunning.getD i false then [] else [s!"C04-target-not-running:{p}>{i}"]) ++
       (if known w p i then []
-       else if dist != .all && !fresh && known w0 p i then [s!"C04-not-rechecked:program-disabled:{p}>{i}"]
+       else if dist != .all && !fresh && (known w0 p i || run.lostSince) then [s!"C04-not-rechecked:program-disabled:{p}>{i}"]
        -- root cause of its own: the instance is taken from the selection made for the APPLICATION (`self.identifiers`: the
        -- instances of the node, or the single instance when a command is added later) without looking at THIS program there
        else if dist == .singleNode || (dist != .all && addedAt.isSome) then [s!"C04-selection-program-unknown-or-disabled:{p}>{i}"]
@@ -268,7 +273,7 @@ def onReq (w : W) (opReqs : List Req) (j : Judge) : Req → Judge × List String
       (if allowed w p i then [] else [s!"C04-rule-forbids:{p}>{i}"]) ++
       (if fits w j.reqs p i then [] else
         (if fits w own p i then [s!"C04-overload-by-requests-of-other-jobs:{p}>{i}"]
-         else if dist != .all && !fresh && fits w0 [] p i then [s!"C04-not-rechecked:overload:{p}>{i}"]
+         else if dist != .all && !fresh && (fits w0 [] p i || run.lostSince) then [s!"C04-not-rechecked:overload:{p}>{i}"]
          -- root cause of its own: a single process of a non-distributed application is placed by `before` for the load of the
          -- application's start sequence (which leaves out a program of sequence 0), not for the program's load
          else if dist != .all && single && (pc w p).startSeq == 0 && carries w0 [] app i
@@ -305,7 +310,7 @@ def onReq (w : W) (opReqs : List Req) (j : Judge) : Req → Judge × List String
            else [s!"C14-not-optimal-for-application-load:{p}>{i}:{strat.code}"]) ++
         -- inside the node the strategy applies to each program; the code decides every placement when the application
         -- begins, from the loads of that time and without the starts it is itself about to request (known root cause)
-        (if run.first.any (fun f => w.node.getD f 0 != nd) || single then []
+        (if run.first.any (fun f => w.node.getD f 0 != nd) || single || run.lostSince then []
          else if optimalInNode w j.reqs strat p i then []
          else if optimalInNode w own strat p i then [s!"C14-not-optimal-by-requests-of-other-jobs:{p}>{i}"]
          else if optimalInNode w0 [] strat p i then [s!"C14-single-node-placement-not-refreshed:{p}>{i}"]
@@ -446,7 +451,8 @@ def onLose (w : W) (j : Judge) (i : Nat) : Judge × List String :=
   let v2 := lostStops.flatMap (fun r =>
     if (pr w r.1).running.contains i then [s!"C10-lost-stop-still-listed:{r.1}>{i}"] else [])
   ({ j1 with reqs := j1.reqs.filter (fun r => r.i != i), stops := j1.stops.filter (fun r => r.2.1 != i),
-             givenUp := j1.givenUp ++ lostStops.map (·.1) }, v1 ++ v2)
+             givenUp := j1.givenUp ++ lostStops.map (·.1),
+             runs := j1.runs.map (fun r => if r.snap.isSome then { r with lostSince := true } else r) }, v1 ++ v2)
 
 /-- C10: at a periodic check, every outstanding request whose deadline has passed must be given up in that check
     (forced FATAL / STOPPED emitted for the process). `emitted`: the requests of this check. -/
